@@ -58,6 +58,13 @@ func genC20(r *gen.Rand) *C20Case {
 	tc.Bulk(r, bigDoc)
 	bigDoc["pad2"] = strings.Repeat("0123456789abcdef", r.Range(300, 5000)) // larger than any write buffer
 	put("big.yaml", bigDoc)
+	// unusual but legal file names
+	put("x,y.yaml", map[string]any{"comma": 1})
+	put("sp ace.yaml", map[string]any{"space": 1})
+	put("uni-é.json", map[string]any{"unicode": 1})
+	put("eq=ual.yaml", map[string]any{"eq": 1})
+	put("semi;colon.json", map[string]any{"semi": 1})
+	put("-dash.yaml", map[string]any{"dash": 1})
 	put("p.yaml", map[string]any{"base": true})
 	put("p.q.yaml", map[string]any{"top": 1}) // its parent p.yaml is the target of some faults
 	raw("broken.yaml", "a: [1, 2\n")
@@ -65,12 +72,14 @@ func genC20(r *gen.Rand) *C20Case {
 	raw("x.ini", "[x]\n")
 	raw("plain", "words\n")
 	// argument vector
-	good := []string{"a.yaml", "a.b.yaml", "c.json", "d/e.yaml", "t.toml", "./a.b.yaml", "d/../c.json", "./d/e.yaml", "p.q.yaml", "p.q.json", "big.yaml", "big.json"}
+	good := []string{"a.yaml", "a.b.yaml", "c.json", "d/e.yaml", "t.toml", "./a.b.yaml", "d/../c.json", "./d/e.yaml", "p.q.yaml", "p.q.json", "big.yaml", "big.json",
+		"x,y.yaml", "x,y.json", "sp ace.yaml", "uni-é.json", "uni-é.yaml", "eq=ual.yaml", "semi;colon.json", "-dash.yaml"}
 	virtual := []string{"a.b.json", "c.yaml", "a.toml", "d/e.json", "c.yml", "a.b.jsonl"}
 	failing := []string{"bad.yaml", "bad2.json", "broken.yaml", "bad.json", "bad3.yaml", "bad3.json"}
 	pass := []string{"apply", "get", "-f", "-v", "--dry-run", "--opt=value", "--file=a.b.yaml", "-o=c.json", "notes.txt", "x.ini", "plain",
 		"nosuch.yaml", "nosuch", "a.b", "a.yaml.bak", "", "--", "-", "a.b.yaml ", "d", "d/", "zz/a.yaml", "a.xml", "--filename=d/e.yaml", "-f=a.yaml",
-		"notes.json", "plain.yaml", "x.toml", "./notes.txt", "d/../notes.txt", "a=b", "--set", "k=v.yaml", "e.yaml", "-o", "yaml", ".yaml", "a..yaml"}
+		"notes.json", "plain.yaml", "x.toml", "./notes.txt", "d/../notes.txt", "a=b", "--set", "k=v.yaml", "e.yaml", "-o", "yaml", ".yaml", "a..yaml",
+		"a.yaml,c.json", "a.b.yaml,notes.txt,c.json", "a.yaml:c.json", "a.yaml c.json", "a.yaml;c.json", "c.json=a.yaml", "@a.yaml", "file://a.yaml", "a.yaml,", ",a.yaml", "a.yaml\tc.json", "a.yaml\n"}
 	n := r.Range(0, 8)
 	failP := gen.PickAny(r, []float64{0, 0, 0.08, 0.25})
 	for i := 0; i < n; i++ {
